@@ -21,7 +21,12 @@ type handler func(args []string) string
 
 var handlers = map[string]handler{}
 
-func register(name string, h handler) { handlers[name] = h }
+func register(name string, h handler) {
+	if _, dup := handlers[name]; dup {
+		panic("duplicate op " + name)
+	}
+	handlers[name] = h
+}
 
 var watchdog = 20 * time.Second
 
